@@ -266,7 +266,7 @@ func Spec() *core.Spec {
 		Rule: "one seeded case list (encode and decode of request/response messages at 5 versions, all 54 bare payload types without header, attributes, 9 objects; binary, XML, JSON and text forms; decode inputs built by the harness's own writers so the process stays cold) " +
 			"executed by R: 1 fresh sequential process; C: fresh cold processes in which 16..128 goroutines released by a barrier run the whole list in per-goroutine seeded shuffles (distinct first-use orders of the types); " +
 			"H: reused cleared encoders driven through seeded sequences mixing versions, headerless payloads and formats, and single decoders fed several concatenated items. All results must equal R's; race reports with a library frame are violations. " +
-			"distinct = distinct (process kind, goroutine, first-use order) executions",
+			"XML/JSON inputs with enumeration names; package-level Marshal functions; panicking-and-recovered encodes inside histories; distinct = distinct (process kind, goroutine, first-use order) executions",
 		Assumptions: []string{"results are compared as digests of the output bytes (encode) or of the reference layout of the decoded value (decode)"},
 		Required:    []string{"results_compared", "results_compared_with_fresh_process", "cold_process_goroutines", "history_steps", "poisoned_encodes_recovered"},
 		EvalCounter: "results_compared",
